@@ -107,6 +107,15 @@ def planted(rng):
         b = blocks[1][0]
         C[a, b] = max(C[a, b], thr - 1) if C[a, b] < thr else C[a, b]
         C[b, a] = thr - 1
+    # counts below the threshold still carry weight: pad one block with
+    # sub-threshold entries so that its lead comes from counts that are not
+    # edges of the thresholded graph
+    if thr > 1 and rng.random() < 0.6:
+        idx = blocks[int(rng.integers(0, nb))]
+        sub = C[np.ix_(idx, idx)]
+        C[np.ix_(idx, idx)] = np.where(sub == 0, thr - 1, sub)
+        if rng.random() < 0.5:
+            C[idx, idx] += (thr - 1) * int(rng.integers(1, 6))
     # sinks with large in-counts, no way out
     for k in range(n_sink):
         s_ = pos
